@@ -312,8 +312,13 @@ static GPScope* gp_last_scope_of(GPArena* scope_factory)
        gp_round_to_aligned(sizeof(GPScope), GP_ALLOC_ALIGNMENT));
 }
 
+static void gp_make_scope_factory_key(void);
+
 GPAllocator* gp_last_scope(const GPAllocator* fallback)
 {
+    // The key must exist before it is read: without this a process that has
+    // not called gp_begin() yet would read whatever another key stores.
+    gp_thread_once(&gp_scope_factory_key_once, gp_make_scope_factory_key);
     GPArena* factory = gp_thread_local_get(gp_scope_factory_key);
     GPScope* scope = NULL;
     if (factory == NULL || (scope = gp_last_scope_of(factory)) == (GPScope*)factory)
